@@ -609,7 +609,7 @@ pub fn generate(r: &mut Rng, hi: u64, lo: u64) -> FmtCase {
     let prec = if r.chance(1, 300) {
         Some(match r.below(3) {
             0 => *r.pick(&[3000usize, 10_000, 30_000]),
-            1 => *r.pick(&[2047usize, 2048, 4095, 4096, 8191, 8192, 16_383, 16_384, 32_767, 32_768, 65_534]),
+            1 => *r.pick(&[2047usize, 2048, 4095, 4096, 8191, 8192, 16_383, 16_384, 32_767, 32_768, 65_534, if tr == Tr::Display { 65_535 } else { 65_534 }]),
             _ => {
                 let bits = r.range(11, 15);
                 ((1u64 << bits) + r.below(1u64 << bits)).min(65_534) as usize
@@ -628,7 +628,15 @@ pub fn generate(r: &mut Rng, hi: u64, lo: u64) -> FmtCase {
     };
     let flags = if r.chance(1, 5) {
         let preset = r.usize_below(crate::fmtspecs::N_PRESETS);
-        Some(FlagSpec { preset, width: *r.pick(&[0usize, 1, 8, 12, 24, 40, 80]) })
+        let width = match r.below(8) {
+            0..=4 => *r.pick(&[0usize, 1, 8, 12, 24, 40, 80]),
+            5 => *r.pick(&[63usize, 64, 65, 95, 96, 97, 127, 128, 129, 255, 256, 257, 1023, 1024, 4096, 65_535]),
+            _ => {
+                let bits = r.range(1, 15);
+                ((1u64 << bits) + r.below(1u64 << bits)).min(65_535) as usize
+            }
+        };
+        Some(FlagSpec { preset, width })
     } else {
         None
     };
